@@ -19,6 +19,9 @@ import (
 	"github.com/aergoio/aergo/v2/chain"
 	"github.com/aergoio/aergo/v2/config"
 	"github.com/aergoio/aergo/v2/consensus"
+	"github.com/aergoio/aergo/v2/consensus/impl/dpos"
+	"github.com/aergoio/aergo/v2/consensus/impl/dpos/bp"
+	"github.com/aergoio/aergo/v2/p2p/p2pkey"
 	"github.com/aergoio/aergo/v2/contract"
 	"github.com/aergoio/aergo/v2/contract/system"
 	"github.com/aergoio/aergo/v2/pkg/component"
@@ -28,6 +31,7 @@ import (
 	"github.com/aergoio/aergo/v2/types/message"
 	"github.com/aergoio/aergo/v2/zz_verif/vh"
 	"github.com/btcsuite/btcd/btcec/v2"
+	lcrypto "github.com/libp2p/go-libp2p/core/crypto"
 )
 
 // ---------------------------------------------------------------- stub consensus
@@ -68,6 +72,21 @@ func (s *stubCons) MakeConfChangeProposal(req *types.MembershipChange) (*consens
 	return nil, consensus.ErrNotSupportedMethod
 }
 
+// dposCons: the stub with the REAL DPoS status in the three places the chain service uses it around a
+// reorganisation and a restart — Update (LIB bookkeeping, both the connect and the rollback branch), Save (the
+// dpos_lib_status record written in the tip transaction / the mapping bulk) and NeedReorganization (the LIB
+// veto). The Status is made by the real dpos.NewStatus at boot, i.e. its boot loader reads the status record
+// and replays the height index of whatever store the crash left (after ChainDB.Init, before Recover).
+type dposCons struct {
+	*stubCons
+	st *dpos.Status
+}
+
+func (d *dposCons) Update(block *types.Block)                    { d.stubCons.Update(block); d.st.Update(block) }
+func (d *dposCons) Save(tx consensus.TxWriter) error             { return d.st.Save(tx) }
+func (d *dposCons) NeedReorganization(rootNo types.BlockNo) bool { return d.st.NeedReorganization(rootNo) }
+func (d *dposCons) Info() string                                 { return d.st.Info() }
+
 // ---------------------------------------------------------------- recording component (stands for mempool, rpc, p2p, syncer)
 
 type sink struct {
@@ -103,6 +122,7 @@ func (r *sink) rec(m interface{}) {
 // ---------------------------------------------------------------- world
 
 const naccounts = 4
+const nbps = 3
 
 type world struct {
 	keys   []*btcec.PrivateKey
@@ -113,6 +133,8 @@ type world struct {
 	txID   map[string]int       // tx hash -> small id (1..)
 	txByID []*types.Tx
 	prod   *producer
+	bpKeys []lcrypto.PrivKey // block producers: every block is signed by one of them (round robin by height)
+	bpIDs  []string
 }
 
 func newWorld(root string) *world {
@@ -123,6 +145,20 @@ func newWorld(root string) *world {
 		w.keys = append(w.keys, k)
 		w.addrs = append(w.addrs, crypto.GenerateAddress(k.PubKey().ToECDSA()))
 	}
+	for i := 0; i < nbps; i++ {
+		priv, err := lcrypto.UnmarshalSecp256k1PrivateKey(seed.Bytes(32))
+		if err != nil {
+			panic(err)
+		}
+		pid, err := types.IDFromPublicKey(priv.GetPublic())
+		if err != nil {
+			panic(err)
+		}
+		w.bpKeys = append(w.bpKeys, priv)
+		w.bpIDs = append(w.bpIDs, types.IDB58Encode(pid))
+	}
+	dpos.Init(nbps)
+	p2pkey.VerifC06SetNodeSID(w.bpIDs[0])
 	return w
 }
 
@@ -163,6 +199,7 @@ func readDir(dir string) *kv {
 type node struct {
 	cs   *chain.ChainService
 	cons *stubCons
+	dp   *dposCons // non-nil: the node runs with the real DPoS status
 	msgs []string
 	dir  string
 	rec  *recorder
@@ -172,14 +209,27 @@ type node struct {
 // ChainDB.Init (loadChainData, recover → RecoverChainMapping), ChainStateDB.Init at the best block's
 // root, initGenesis (finds the stored genesis). Then the stub consensus and the message sinks are
 // attached and both stores are wrapped by the journaling store.
-func (w *world) boot(dir string) *node {
+func (w *world) boot(dir string) *node { return w.bootX(dir, false) }
+
+// bootX: realStatus = the consensus component carries a real dpos.Status (made by dpos.NewStatus on the chain DB
+// as booted, as dpos.New does at process start).
+func (w *world) bootX(dir string, realStatus bool) *node {
 	n := &node{dir: dir, rec: &recorder{}}
 	cfg := config.NewServerContext("", "").GetDefaultConfig().(*config.Config)
 	cfg.DbType = "memorydb"
 	cfg.DataDir = dir
 	n.cs = chain.NewChainService(cfg)
 	n.cons = &stubCons{cs: n.cs}
-	n.cs.SetChainConsensus(n.cons)
+	if realStatus {
+		cm, err := bp.VerifNewCluster(w.bpIDs)
+		if err != nil {
+			panic(err)
+		}
+		n.dp = &dposCons{stubCons: n.cons, st: dpos.NewStatus(cm, n.cs.CDB(), n.cs.SDB(), 0)}
+		n.cs.SetChainConsensus(n.dp)
+	} else {
+		n.cs.SetChainConsensus(n.cons)
+	}
 	hub := component.NewComponentHub()
 	for _, nm := range []string{message.MemPoolSvc, message.RPCSvc, message.P2PSvc, message.SyncerSvc} {
 		hub.Register(&sink{name: nm, log: &n.msgs, w: w})
@@ -295,6 +345,11 @@ func (p *producer) build(parent *types.Block, parentRoot []byte, specs []txSpec,
 		hdrRoot[len(hdrRoot)-1] ^= 0x5a
 	}
 	blk := types.NewBlock(bi, hdrRoot, bs.Receipts(), txs, nil, nil)
+	// signed by the producers in turn, confirming every ancestor (so that the real DPoS status moves its LIB)
+	blk.SetConfirms(bi.No)
+	if err := blk.Sign(p.w.bpKeys[int(bi.No)%nbps]); err != nil {
+		panic(err)
+	}
 	blk.BlockHash()
 	return blk, root
 }
